@@ -63,6 +63,8 @@ def run(ctx, chk):
     r_ab = chk.rule("C01.R7", "no abort site in the arithmetic helpers / actions can fail", floor=10)
     chk.rule("C01.R8", "byte and word helper of a mnemonic compute every flag from the same expression (no dropped operand)", floor=25)
     chk.rule("C01.R10", "an immediate operand has the width of its destination (every operand bit comes from the same bit of the literal)", floor=6)
+    chk.rule("C01.R12", "CF, AF, OF, SF, ZF are the manual's predicates over the operands (normal forms D>0 / D==0 / xor), for every operand", floor=20)
+    chk.rule("C01.R11", "the stored result is the arithmetic result modulo 2^width, for every operand value and incoming carry (affine closed form)", floor=10)
     chk.rule("C01.R9", "the zero test is made on the stored result (or on a wider value that cannot be a non-zero multiple of 2^width)", floor=8)
     sibling_rule(ctx, chk)
 
@@ -166,6 +168,8 @@ def run(ctx, chk):
                     fr = {(n, i) for (n, i) in fr if n == names[0]}
                 check_required_deps(chk, "C01.R4", unit, f, (s.flag.bits[FBIT[f]],), fr, where)
             report_aborts(chk, "C01.R7", unit, s.I.events, where)
+            result_value_rule(ctx, chk, unit, m, group, fn, width, where)
+            flag_predicate_rule(ctx, chk, unit, m, group, fn, width, where, sp["written"])
 
     # production-level: CMP no write-back, frames
     from units import address_overrides
@@ -415,3 +419,371 @@ def zero_test_rule(ctx, chk, unit, fn, s, width, where, key_unit=None):
                           witness=f"intermediate = {ks[0] * mod} (range [{x.lo},{x.hi}])")
         else:
             chk.undecided_("C01.R9", unit, f"wide intermediate with range [{x.lo},{x.hi}] (not exact)")
+
+
+def result_value_rule(ctx, chk, unit, m, group, fn, width, where):
+    """C01.R11.  The value a helper returns (binary forms) or leaves in its operand (unary forms), as a closed form over
+    the operand atoms, must be the manual's arithmetic result modulo 2^width:
+        add op1+op2   adc op1+op2+CF   sub op1-op2   sbb op1-op2-CF   inc val+1   dec val-1   neg -val   (cmp: R6)
+    The affine domain keeps `c + sum k_i*x_i mod 2^w` exactly through widening casts, wrapping and checked additions,
+    `!x` and narrowing casts; a value refined on one branch only (`if res == 0`) keeps its symbolic identity across the
+    join.  The run is partitioned on the incoming carry (ADC/SBB) and, for unary forms, on the operand cells
+    {0}, [1,MIN-1], {MIN}, [MIN+1,MAX] so that special-cased operands (NEG of MIN, of 0) are single paths.
+    Equal canonical forms = equal for every operand; two linear forms that differ come with a concrete operand pair;
+    a value without a closed form is undecided."""
+    from domains import Lin, lin_equal_witness
+    M_ = 1 << width
+    if m == "cmp":
+        return
+    cells = [None]
+    carries = [None]
+    if m in ("adc", "sbb"):
+        carries = [0, 1]
+    names = [l["name"] or f"arg{i}" for i, l in enumerate(fn["locals"][1:fn["argc"] + 1], 1)][1:]
+    if group != "binary":
+        mn = 1 << (width - 1)
+        cells = [(0, 0), (1, mn - 1), (mn, mn), (mn + 1, M_ - 1)]
+    verdicts = []
+    for cv in carries:
+        for cell in cells:
+            kw = {}
+            if cv is not None:
+                kw["assume"] = {("flag", FBIT["CF"]): cv}
+            if cell is not None:
+                if cell[0] == cell[1]:
+                    kw["specialise"] = {names[0]: cell[0]}
+                else:
+                    kw["ranges"] = {names[0]: cell}
+            try:
+                s = summarize_fn(ctx, fn, **kw)
+            except Unsupported as e:
+                verdicts.append(("undecided", str(e)))
+                continue
+            if s.st.dead:
+                verdicts.append(("undecided", "no returning path"))
+                continue
+            got = s.ret if group == "binary" else s.slots.get(names[0])
+            if got is None or got.kind != "int":
+                verdicts.append(("undecided", "result is not an integer value"))
+                continue
+            c = cv or 0
+            if group == "binary":
+                a, b = Lin.atom(names[0]), Lin.atom(names[1])
+                want = {"add": a.add(b), "adc": a.add(b).add(Lin(c)), "sub": a.sub(b), "sbb": a.sub(b).sub(Lin(c))}[m]
+            else:
+                v = Lin.atom(names[0]) if cell[0] != cell[1] else Lin(cell[0])
+                want = {"inc": v.add(Lin(1)), "dec": v.sub(Lin(1)), "neg": v.scale(-1)}[m]
+            want = want.mod(M_)
+            tag = ("" if cv is None else f"CF={cv}") + ("" if cell is None else f" {names[0]} in [{cell[0]},{cell[1]}]")
+            if got.aff is None:
+                if got.lo == got.hi and want.is_const():
+                    verdicts.append(("ok", tag) if got.lo == want.c else ("bad", f"{tag}: result {got.lo}, expected {want.c}"))
+                else:
+                    verdicts.append(("undecided", f"{tag}: the result has no closed form"))
+                continue
+            have = got.aff.mod(M_)
+            ranges = s.I.atom_ranges()
+            r = lin_equal_witness(have, want, ranges)
+            if r[0] == "equal":
+                verdicts.append(("ok", tag))
+            elif r[0] == "differ":
+                env = r[1]
+                verdicts.append(("bad", f"{tag}: result is {have.pretty()} where the manual gives {want.pretty()}; e.g. " +
+                                 ", ".join(f"{k}={v}" for k, v in sorted(env.items())) + f": {have.eval(env) % M_} instead of {want.eval(env) % M_}"))
+            else:
+                verdicts.append(("undecided", f"{tag}: {have.pretty()} not comparable with {want.pretty()}"))
+    bad = [t for k, t in verdicts if k == "bad"]
+    und = [t for k, t in verdicts if k == "undecided"]
+    if bad:
+        chk.violation("C01.R11", unit, "result-value", f"{fn['name']}: {bad[0]}", where, witness=bad[0])
+    elif und:
+        chk.undecided_("C01.R11", unit, und[0])
+    else:
+        chk.ok("C01.R11", unit, f"result = manual's value mod 2^{width} in {len(verdicts)} partition(s)")
+
+
+# ---------------------------------------------------------------------------------------------------------------
+# R12: the flag formulas of the ADD / SUB family as predicates over the operands
+def _norm_pred(p, ranges, depth=0):
+    """normal form of a boolean V value's provenance: ('pos', Lin D) = (D > 0), ('zero', D), ('nonzero', D),
+    ('xor', p, q) with the pair ordered; None when some operand has no closed form"""
+    from domains import Lin
+    if p is None or depth > 6:
+        return None
+    pr = getattr(p, "pred", None)
+    if pr is None:
+        return None
+    k = pr[0]
+    if k == "not":
+        q = _norm_pred(pr[1], ranges, depth + 1)
+        return _negate(q)
+    if k == "xor":
+        a, b = _norm_pred(pr[1], ranges, depth + 1), _norm_pred(pr[2], ranges, depth + 1)
+        if a is None or b is None:
+            return None
+        return ("xor",) + tuple(sorted((a, b), key=repr))
+    if k != "cmp":
+        return None
+    op, x, y = pr[1], pr[2], pr[3]
+    if x.kind != "int" or y.kind != "int":
+        return None
+    # (v & 2^k) != 0  /  == 0 : bit k of v
+    for u, z in ((x, y), (y, x)):
+        up = getattr(u, "pred", None)
+        if up is not None and up[0] == "bit" and z.is_const() and z.lo == 0 and op in ("Ne", "Eq", "Gt"):
+            v, kbit = up[1], up[2]
+            if v.aff is None or (op == "Gt" and u is not x):
+                return None
+            d = v.aff.mod(1 << (kbit + 1)).sub(Lin((1 << kbit) - 1))
+            res = ("pos", d.simplify(ranges))
+            return _negate(res) if op == "Eq" else res
+    if x.aff is None or y.aff is None:
+        return None
+    a, b = x.aff, y.aff
+    if op == "Gt":
+        return ("pos", a.sub(b).simplify(ranges))
+    if op == "Ge":
+        return ("pos", a.sub(b).add(Lin(1)).simplify(ranges))
+    if op == "Lt":
+        return ("pos", b.sub(a).simplify(ranges))
+    if op == "Le":
+        return ("pos", b.sub(a).add(Lin(1)).simplify(ranges))
+    if op == "Eq":
+        return ("zero", a.sub(b).simplify(ranges))
+    if op == "Ne":
+        return ("nonzero", a.sub(b).simplify(ranges))
+    return None
+
+
+def _negate(q):
+    from domains import Lin
+    if q is None:
+        return None
+    if q[0] == "pos":
+        return ("pos", Lin(1).sub(q[1]))
+    if q[0] == "zero":
+        return ("nonzero", q[1])
+    if q[0] == "nonzero":
+        return ("zero", q[1])
+    if q[0] == "xor":
+        return ("xor",) + tuple(sorted((_negate(q[1]), q[2]), key=repr))
+    return None
+
+
+def _eval_pred(q, env):
+    if q[0] == "pos":
+        return q[1].eval(env) > 0
+    if q[0] == "zero":
+        return q[1].eval(env) == 0
+    if q[0] == "nonzero":
+        return q[1].eval(env) != 0
+    return _eval_pred(q[1], env) != _eval_pred(q[2], env)
+
+
+def _pred_atoms(q):
+    if q[0] == "xor":
+        return _pred_atoms(q[1]) | _pred_atoms(q[2])
+    return q[1].atoms()
+
+
+def _pred_show(q):
+    if q[0] == "xor":
+        return f"({_pred_show(q[1])}) xor ({_pred_show(q[2])})"
+    return {"pos": "{} > 0", "zero": "{} == 0", "nonzero": "{} != 0"}[q[0]].format(q[1].pretty())
+
+
+def _compare_preds(have, want, ranges):
+    """'equal' | ('differ', env) | 'unknown' : both are exact predicates over the operand atoms"""
+    import itertools
+    if have == want or repr(have) == repr(want):
+        return "equal"
+    if have[0] == want[0] and have[0] in ("zero", "nonzero"):
+        # D == 0 <=> D mod m == 0 when |D| < m
+        for m in (1 << 8, 1 << 16, 1 << 32):
+            (l1, h1), (l2, h2) = have[1].interval(ranges), want[1].interval(ranges)
+            if -m < l1 and h1 < m and -m < l2 and h2 < m and have[1].mod(m) == want[1].mod(m):
+                return "equal"
+    atoms = sorted(_pred_atoms(have) | _pred_atoms(want))
+    cand = []
+    complete = True
+    for at in atoms:
+        lo, hi = ranges.get(at, (0, 0xFFFF))
+        pts = {lo, hi, lo + 1, hi - 1, (lo + hi) // 2, (lo + hi) // 2 + 1}
+        for k in (3, 4, 7, 8, 15, 16):
+            for d in (-1, 0, 1):
+                pts.add((1 << k) + d)
+                pts.add(hi - (1 << k) + d)
+        pts = sorted(p for p in pts if lo <= p <= hi)
+        if hi - lo + 1 > len(pts):
+            complete = False
+        else:
+            pts = list(range(lo, hi + 1))
+        cand.append(pts)
+    for vals in itertools.product(*cand):
+        env = dict(zip(atoms, vals))
+        if _eval_pred(have, env) != _eval_pred(want, env):
+            return ("differ", env)
+    return "equal" if complete else "unknown"
+
+
+_FLAGMAP_CACHE = {}
+
+
+def bool_flag_map(ctx, e):
+    """Which boolean argument of this call decides which flag bit, and with which polarity: the callee is run once with all
+    its boolean arguments false and once per argument with only that one true; a flag bit that differs between the two
+    final flag words is decided by that argument.  -> {flag bit: (index path of the bool, polarity)}"""
+    from absint import Interp, IntV, AggV, Unsupported as U_
+    from units import machine_state
+    P = ctx.program
+    g = P.fns.get(e.fref.get("id")) if getattr(e, "fref", None) else None
+    if g is None:
+        return {}
+    paths = []
+    for i, a in enumerate(e.args):
+        if a.kind == "int" and a.ty == "bool":
+            paths.append((i,))
+        elif a.kind == "agg":
+            for j, f in enumerate(a.fields):
+                if f.kind == "int" and f.ty == "bool":
+                    paths.append((i, j))
+    if not paths:
+        return {}
+    key = (g["id"], tuple(paths))
+    if key in _FLAGMAP_CACHE:
+        return _FLAGMAP_CACHE[key]
+    ai = arch_index(P)
+
+    def run(true_path):
+        I = Interp(P)
+        st = machine_state(I, P)
+        args = []
+        for i, a in enumerate(e.args):
+            if (i,) in paths:
+                args.append(IntV.const("bool", 1 if (i,) == true_path else 0))
+            elif a.kind == "agg" and any(p[0] == i for p in paths):
+                fs = [IntV.const("bool", 1 if (i, j) == true_path else 0) if (i, j) in paths else f for j, f in enumerate(a.fields)]
+                args.append(AggV(a.name, fs))
+            elif a.kind == "ref":
+                args.append(a)
+            else:
+                return None
+        try:
+            I.run_fn(g, args, st)
+        except U_:
+            return None
+        if st.dead:
+            return None
+        return st.frames[0]["vm"].fields[0].fields[ai["flag"]]
+    base = run(None)
+    out = {}
+    if base is not None and base.kind == "int":
+        for p in paths:
+            r = run(p)
+            if r is None or r.kind != "int":
+                continue
+            for bit in range(16):
+                if r.bits[bit] != base.bits[bit] and r.bits[bit] in (0, 1) and base.bits[bit] in (0, 1):
+                    out[bit] = (p, r.bits[bit])
+    _FLAGMAP_CACHE[key] = out
+    return out
+
+
+def flag_predicate_rule(ctx, chk, unit, m, group, fn, width, where, written):
+    """C01.R12.  For ADD/ADC/SUB/SBB/CMP/INC/DEC/NEG: CF, AF, ZF, SF and OF as *predicates over the operands*.
+    The helpers compute booleans and hand them to a flag-setting routine; V keeps, for each boolean, the comparison that
+    produced it with the closed forms of both sides, and `bool_flag_map` tells which boolean sets which flag.  The
+    manual's definition is written in the same normal form (D > 0, D == 0, xor of two such):
+        add  CF: a+b+c > 2^w-1   AF: a%16+b%16+c > 15   OF: (a%H+b%H+c > H-1) xor CF   SF: result >= H   ZF: result == 0
+        sub  CF: a < b+c         AF: a%16 < b%16+c      OF: (a%H < b%H+c) xor CF        (result = (a-b-c) mod 2^w)
+    (H = 2^(w-1); inc/dec are add/sub of 1 with CF left alone; neg is 0 - val).  Equal normal forms: the flag is right for
+    every operand.  Different forms are evaluated on a grid of boundary operands; a point where they disagree is a
+    concrete counterexample.  A boolean without a closed form (a hand-written bit trick) leaves that flag undecided."""
+    from domains import Lin, bits_all_deps
+    M_, H = 1 << width, 1 << (width - 1)
+    names = [l["name"] or f"arg{i}" for i, l in enumerate(fn["locals"][1:fn["argc"] + 1], 1)][1:]
+    carries = [0, 1] if m in ("adc", "sbb") else [None]
+    results = {}
+    for cv in carries:
+        kw = {"assume": {("flag", FBIT["CF"]): cv}} if cv is not None else {}
+        try:
+            s = summarize_fn(ctx, fn, **kw)
+        except Unsupported:
+            continue
+        if s.st.dead:
+            continue
+        ranges = s.I.atom_ranges()
+        c = cv or 0
+        if group == "binary":
+            a, b = Lin.atom(names[0]), Lin.atom(names[1])
+        elif m in ("inc", "dec"):
+            a, b = Lin.atom(names[0]), Lin(1)
+        else:
+            a, b = Lin(0), Lin.atom(names[0])
+        add = m in ("add", "adc", "inc")
+        val = (a.add(b).add(Lin(c)) if add else a.sub(b).sub(Lin(c))).mod(M_)
+        if add:
+            cf = ("pos", a.add(b).add(Lin(c - (M_ - 1))))
+            af = ("pos", a.mod(16).add(b.mod(16)).add(Lin(c - 15)))
+            inner = ("pos", a.mod(H).add(b.mod(H)).add(Lin(c - (H - 1))))
+        else:
+            cf = ("pos", b.add(Lin(c)).sub(a))
+            af = ("pos", b.mod(16).add(Lin(c)).sub(a.mod(16)))
+            inner = ("pos", b.mod(H).add(Lin(c)).sub(a.mod(H)))
+        spec = {"CF": cf, "AF": af, "OF": ("xor",) + tuple(sorted((inner, cf), key=repr)),
+                "SF": ("pos", val.sub(Lin(H - 1))), "ZF": ("zero", val)}
+        spec = {k: (v[0],) + tuple(x.simplify(ranges) if hasattr(x, "simplify") else ((x[0], x[1].simplify(ranges)) if x[0] != "xor" else x) for x in v[1:]) for k, v in spec.items()}
+        # booleans handed to flag routines, latest call wins
+        decided = {}
+        for e in s.I.events:
+            if e.kind != "call" or not getattr(e, "fref", None) or not e.fref.get("local"):
+                continue
+            for bit, (path, pol) in bool_flag_map(ctx, e).items():
+                v = e.args[path[0]] if len(path) == 1 else e.args[path[0]].fields[path[1]]
+                decided[bit] = (v, pol)
+        for f in ("CF", "AF", "OF", "SF", "ZF"):
+            if f not in written or (f == "CF" and m in ("inc", "dec")):
+                continue
+            tag = f"{f}" + ("" if cv is None else f"[CF={cv}]")
+            if FBIT[f] not in decided:
+                results[tag] = ("undecided", "no boolean handed to a flag routine decides this flag")
+                continue
+            v, pol = decided[FBIT[f]]
+            have = _norm_pred(v, ranges)
+            if have is not None and pol == 0:
+                have = _negate(have)
+            if have is None:
+                if v.kind == "int" and v.is_const():
+                    results[tag] = ("undecided", "the flag's boolean is a constant on this partition")
+                else:
+                    results[tag] = ("undecided", "the flag's boolean has no closed form")
+                continue
+            # the flag bit must really end up as that boolean: its final dependencies are the predicate's atoms
+            fin = s.flag.bits[FBIT[f]]
+            deps = {a_ for a_, _ in bits_all_deps((fin,))} if isinstance(fin, tuple) else set()
+            if not (_pred_atoms(have) <= deps | {"flag"}) and _pred_atoms(have):
+                results[tag] = ("undecided", "the flag is written again after the routine")
+                continue
+            want = spec[f]
+            r = _compare_preds(have, want, ranges)
+            if r == "equal":
+                results[tag] = ("ok", _pred_show(have))
+            elif r == "unknown":
+                results[tag] = ("undecided", f"{_pred_show(have)} not comparable with {_pred_show(want)}")
+            else:
+                env = r[1]
+                results[tag] = ("bad", f"{f} is computed as [{_pred_show(have)}], the manual defines [{_pred_show(want)}]; they differ for " +
+                                ", ".join(f"{k}={v_}" for k, v_ in sorted(env.items())) + ("" if cv is None else f", CF={cv}") +
+                                f": {int(_eval_pred(have, env))} instead of {int(_eval_pred(want, env))}")
+    by_flag = {}
+    for tag, (k, t) in results.items():
+        by_flag.setdefault(tag.split("[")[0], []).append((k, t, tag))
+    for f, lst in sorted(by_flag.items()):
+        bad = [x for x in lst if x[0] == "bad"]
+        und = [x for x in lst if x[0] == "undecided"]
+        if bad:
+            chk.violation("C01.R12", unit, f"{f}-formula", f"{fn['name']}: {bad[0][1]}", where, witness=bad[0][1])
+        elif und:
+            chk.undecided_("C01.R12", f"{unit}:{f}", und[0][1])
+        else:
+            chk.ok("C01.R12", f"{unit}:{f}", lst[0][1])
